@@ -160,7 +160,7 @@ def parse_template(path):
                     buf_line = i + 2
                 elif word == "assumed":
                     flush()
-                    parts.append(("assumed", rest, i + 1))
+                    parts.append(("assumed", rest, i + 1, heredoc))
                     buf_line = i + 2
                 elif word in ("fn", "item", "region", "expr"):
                     flush()
@@ -914,7 +914,7 @@ def contract_stub(args, overlay, meta, lineno):
     return Chunk("".join(out), {"t": "template", "line": lineno, "stub_of": "%s::%s" % (unit, path)})
 
 
-def assumed_wrapper(args, meta, lineno):
+def assumed_wrapper(args, meta, lineno, extra=None):
     """`//@assumed PRELUDE_FILE Type::fn [calls=NAME] [as=WRAPPER]`: take the contract that a HAND-WRITTEN external_body stub in
     prelude/PRELUDE_FILE assumes for Type::fn and emit a wrapper `fn <fn>__as_assumed(params) requires A ensures B { recv.<calls>(args) }`.
     Together with `//@stub UNIT Type::fn as=<calls>` (the contract PROVED in UNIT) the verifier then checks that the assumed contract
@@ -987,9 +987,33 @@ def assumed_wrapper(args, meta, lineno):
     ex = Extracted("%s (assumed in prelude/%s)" % (path, pfile), "prelude/" + pfile, item, hashlib.sha256(item.encode()).hexdigest()[:16], "fn")
     ex.sig = wsig
     pieces = split_clauses(spec)
+    # optional heredoc: EXTRA preconditions of the wrapper (invariants of the composition that the environment's stub leaves implicit).
+    # Only `requires` clauses are accepted; each one is recorded as an assumption of the unit and guarded by a vacuity canary.
+    xreq, xens = [], []
+    if opts.get("selfmut") == "1":
+        # the PROVED function takes `&mut self` (lock erasure: it bumps statistics) while the environment's stub takes `&self`:
+        # the wrapper takes `&mut self` and every `self` of the assumed clauses reads the PRE-state
+        wsig = re.sub(r"&\s*self\b", "&mut self", wsig, count=1)
+        pieces = [(k, re.sub(r"(?<![\w(.])self\b(?!\s*\))", "old(self)", t)) for k, t in pieces]
+        meta.setdefault("assumptions", []).append("implication %s: the environment's `&self` stub is checked against a `&mut self` function (statistics are bumped); its clauses read the pre-state" % path)
+    if extra:
+        for kind, txt in split_clauses(extra):
+            if kind == "requires":
+                xreq.append((kind, txt))
+                meta.setdefault("assumptions", []).append("implication %s: wrapper precondition `%s`" % (path, re.sub(r"\s+", " ", txt)))
+            elif kind == "ensures":
+                xens.append((kind, txt))      # extra obligations (e.g. the frame a `&self` stub claims implicitly)
+            else:
+                raise GenError("assumed: the heredoc of //@assumed may hold `requires` / `ensures` clauses only (template line %d)" % lineno)
+    pieces = xreq + [p for p in pieces if p[0] == "requires"] + [p for p in pieces if p[0] != "requires"] + xens
     ch, ids = render_clauses(pieces, "%s/assumed" % path)
     ex.clauses += ids
     chunks = [Chunk(wsig.rstrip() + "\n", {"t": "sig", "fn": ex.name})] + ch + [Chunk("{ %s }\n" % call, {"t": "src", "fn": ex.name, "file": "prelude/" + pfile})]
+    allreq = [t for k, t in pieces if k == "requires"]
+    if allreq:
+        can = make_canary(ex, wsig, [Directive("spec", "", "requires " + ", ".join(allreq) + ",", lineno)], path)
+        if can is not None:
+            chunks.append(can)
     meta.setdefault("implied_stubs", []).append("%s of prelude/%s" % (path, pfile))
     return ex, chunks
 
@@ -1043,7 +1067,7 @@ def generate(template_path, overlay=None):
             elif p[0] == "stub":
                 g.chunks.append(contract_stub(p[1], overlay, meta, p[2]))
             elif p[0] == "assumed":
-                ex, chunks = assumed_wrapper(p[1], meta, p[2])
+                ex, chunks = assumed_wrapper(p[1], meta, p[2], p[3] if len(p) > 3 else None)
                 g.extracted.append(ex)
                 g.chunks += chunks
             else:
